@@ -137,6 +137,15 @@ class CallMixin:
                 if (is_lit or want_inline or small) and name not in self.call_stack:
                     return self.inline_call(ctx, ins, st, fn, fv, args, spec)
                 return self.unknown_call(ctx, ins, st, name, args, res_types, wharf=True)
+            mreset = re.match(r'^\(\*(github\.com/itchio/wharf/[\w/]+\.\w+)\)\.Reset$', name)
+            if fn is None and mreset and args and is_term(args[0]) and self.ty.kind(mreset.group(1)) == 'struct':
+                # generated protobuf Reset(): *x = T{} (the generated code is not extracted; this is its documented meaning)
+                stn = mreset.group(1)
+                z = self.ty.zero(stn, self.fresh_ref)
+                for fname, ftype in self.ty.struct_fields(stn):
+                    self.store(st, PtrV('field', args[0], stn, None, (fname,)), z.fields[fname])
+                self.pure_used.add(name + ' (modelled as *x = T{})')
+                return None
             if self.is_pure(name, call):
                 self.pure_used.add(name)
                 if name == '(*sync.Once).Do' and len(args) == 2 and isinstance(args[1], ClosureV):
@@ -260,7 +269,8 @@ class CallMixin:
         self.call_stack.append(fn['name'])
         self.inlined.add(fn['name'])
         try:
-            frame = self.new_frame()
+            # deterministic per call site: the same inlined call gets the same cells in every pass over a loop body
+            frame = (ctx['frame'], ins.get('id') or ins.get('pos') or fn['name'])
             ex, results = self.run_function(fn, frame, st, args, fv.bindings, spec, depth=ctx['depth'] + 1)
         finally:
             self.call_stack.pop()
@@ -383,6 +393,9 @@ class CallMixin:
         if spec.ensures and not self.mute:
             # vacuity canary: the assumed postcondition must not contradict what is known at this call site
             self.cover('after-%s' % re.sub(r'[^A-Za-z0-9_.$]', '_', label)[:40], st, pos)
+        if getattr(spec, 'alias', None) and spec.alias in names:
+            # the call returns that argument itself (same function value / object)
+            return names[spec.alias][0]
         if not vals:
             return None
         if len(vals) == 1:
@@ -683,6 +696,12 @@ class CallMixin:
             for f in self.ty.facts(v, p['type'], self.mode == 'wrap'):
                 self.hyps.append(f)
             k = self.ty.kind(p['type'])
+            for lf in self.ty.flatten(v, p['type']) if k in ('pointer', 'slice', 'struct', 'map', 'chan') else []:
+                pass
+            if k in ('pointer', 'map', 'chan') and is_term(v):
+                self.hyps.append(T.le(v, self.ALLOC0))
+            if k == 'slice':
+                self.hyps.append(T.le(v.base, self.ALLOC0))
             if k == 'pointer' and is_term(v):
                 self.param_refs.append(v)
                 if (i == 0 and fn.get('hasrecv')) or (spec and p['name'] in spec.nonnil):
@@ -699,6 +718,8 @@ class CallMixin:
                 self.hyps.append(f)
             st.cells[cid] = v
             self.cell_types[cid] = et
+            if self.ty.kind(et) in ('pointer', 'map', 'chan') and is_term(v):
+                self.hyps.append(T.le(v, self.ALLOC0))
             bindings.append(PtrV('cell', cid))
         if spec:
             for g, sort in spec.ghost:
@@ -937,9 +958,8 @@ class CallMixin:
                 keys = keys + allowed['*']
             k = T.fresh('frame_k')
             conds = [T.not_(T.eq(k, r)) for r in keys]
-            # allocations of this run are ordered: fresh refs are > every pre-existing reference the caller can hold
-            if fresh_refs:
-                conds.append(T.lt(k, fresh_refs[0]) if name[0] in 'FEBMG' else T.TRUE)
+            # objects allocated by this run live above the watermark: invisible to the caller
+            conds.append(T.le(k, self.ALLOC0))
             goal = T.implies(T.and_(*conds), T.eq(T.select(a1, k), T.select(a0, k)))
             self.oblige('frame', goal, ex, 'heap component %s is changed outside the modifies clause' % name, '',
                         slug=re.sub(r'[^A-Za-z0-9_.|]', '_', name.replace('github.com/itchio/wharf/', ''))[:60])
